@@ -859,10 +859,15 @@ class EvalStubs(Stubs):
 
     def run(self, ctx, meth, *args):
         self.it.steps = 0
+        self.it.call_depth = 0
         try:
             return self.it.call(self.it.getattr(ctx, meth), list(args), {}), None
         except InterpRaise as e:
             return None, '%s: %s' % (e.exc_name, e.msg)
+        except Uninterpretable as e:
+            if any(w in str(e) for w in ('unbounded', 'budget', 'depth exceeded')):
+                return None, 'NO TERMINATION (%s)' % e
+            raise
 
 
 def evaluate_model(repo):
@@ -948,12 +953,7 @@ def _evaluate_model(repo, order='fwd'):
     ib = st.obj('ImportedName', 'from a import thing (in b)')
     ia.attrs['resolve'] = Native('resolve', lambda it_, a, k: ib)
     ib.attrs['resolve'] = Native('resolve', lambda it_, a, k: ia)
-    try:
-        r, exc = st.run(st.ctx(), 'evaluate', ia)
-    except Uninterpretable as e:
-        if 'unbounded' not in str(e) and 'budget' not in str(e) and 'depth' not in str(e):
-            raise
-        r, exc = 'NO TERMINATION', str(e)
+    r, exc = st.run(st.ctx(), 'evaluate', ia)
     rec('guard', 'evaluate terminates on an import cycle', exc is None and r is None,
         'evaluating a name that two modules import from each other must return nothing; got %s %s' % (r, exc or ''),
         'import cycle -> evaluate returns None (re-entrancy guard on every hop)')
@@ -1025,10 +1025,7 @@ def _declarations_model(repo, order='fwd'):
         'declarations(ImportedName) -> [import, its target...]')
     cyc = st.obj('ImportedName', 'import of itself', name='v', location=(1, 0), declared_at=(1, 7))
     cyc.attrs['resolve'] = Native('resolve', lambda it, a_, k: cyc)
-    try:
-        r, exc = st.run(st.ctx(), 'declarations', cyc, [])
-    except Uninterpretable as e:
-        r, exc = None, 'no termination (%s)' % e
+    r, exc = st.run(st.ctx(), 'declarations', cyc, [])
     rec('cycle', 'an import cycle terminates', r == [cyc], 'the declarations of an import resolving to itself must be [that import]; got %s'
         % (exc or r,))
     # attribute
